@@ -7,6 +7,9 @@ from gen import rng_for
 from .common import tolist, exceeds
 
 LEAN = "PystogVerif.Props.C20"
+# theorems about the code generated from pre_proc.py by tools/translate_stog.py (built when rebin translates)
+LEAN_GEN = "PystogVerif.Props.C20Gen"
+STOG_METHODS = ["rebin"]
 ENTRIES = []
 RULE = ("irregular, shuffled abscissae (40% on grid nodes, points exactly at xmin/xmax, points outside [xmin,xmax]), random xmin, step, "
         "xmax (xmax on or off the grid), every bin populated; second data vector and coefficients for linearity; "
